@@ -22,6 +22,10 @@ pub struct Case {
     /// configured plugins set up, which may have registered parts of speech) instead of the bare system file
     #[serde(default)]
     pub ubuild: bool,
+    /// this user dictionary (index) is stored in the previous file format (user dictionary, revision 2: own parts of
+    /// speech, no synonym group ids), which the loader still accepts; its entries carry no synonym groups
+    #[serde(default)]
+    pub legacy: Option<usize>,
 }
 
 pub struct C12;
@@ -79,8 +83,8 @@ impl Property for C12 {
                 (world(d, cp.clone()), vec(pieces_long(10), 1..=4))
             })
             
-            .prop_flat_map(|x| (Just(x), prop::bool::weighted(0.3), prop::option::weighted(0.12, any::<u16>())))
-            .prop_map(|(((mut dic, cfg), texts), ubuild, dup)| {
+            .prop_flat_map(|x| (Just(x), prop::bool::weighted(0.3), prop::option::weighted(0.12, any::<u16>()), prop::option::weighted(0.15, any::<u16>())))
+            .prop_map(|(((mut dic, cfg), texts), ubuild, dup, legacy)| {
                 // the same user dictionary listed twice in a row: two layers with their own numbers
                 if let Some(k) = dup {
                     if !dic.users.is_empty() && dic.users.len() < 14 {
@@ -89,7 +93,17 @@ impl Property for C12 {
                         dic.users.insert(i + 1, copy);
                     }
                 }
-                Case { dic, cfg, texts, ubuild }
+                let legacy = match legacy {
+                    Some(k) if !dic.users.is_empty() => {
+                        let i = ix(k, dic.users.len());
+                        for e in dic.users[i].iter_mut() {
+                            e.synonyms.clear();
+                        }
+                        Some(i)
+                    }
+                    _ => None,
+                };
+                Case { dic, cfg, texts, ubuild, legacy }
             })
             .boxed()
     }
@@ -152,6 +166,12 @@ impl Property for C12 {
                     return rep;
                 }
             }
+        }
+        if let Some(i) = case.legacy.filter(|i| *i < compiled.users.len()) {
+            // revision 2 of the user dictionary format differs from revision 3 by the synonym group ids at the end of
+            // each entry (none here, and entries are reached through the offset table): the same bytes under the older magic
+            compiled.users[i][..8].copy_from_slice(&0x9fdeb5a90168d868u64.to_le_bytes());
+            rep.class("a user dictionary in the previous file format");
         }
         let loaded = guarded(|| load(&compiled, &config));
         if dic.users.len() >= 15 {
@@ -366,7 +386,7 @@ pub fn fixtures() -> Vec<(&'static str, Case, &'static str)> {
     };
     vec![(
         "f22-user-dictionary-built-against-loaded-dictionary.json",
-        Case { dic, cfg, texts: vec![vec![Piece::Raw("uva".into())]], ubuild: true },
+        Case { dic, cfg, texts: vec![vec![Piece::Raw("uva".into())]], ubuild: true, legacy: None },
         "F22: a user dictionary compiled with DictBuilder::new_user(&loaded dictionary) (the `ubuild` flow) inherits the parts of speech that OOV plugins registered with userPOS=allow as if they were system parts of speech; when the stack is loaded its own parts of speech are shifted by that number (u reports the POS declared for v, v's POS id is out of range)",
     )]
 }
